@@ -56,6 +56,11 @@ def cardinality_neq (s : FState) (lits : List Int) (v : Int) (check : Bool) : Ex
 def add_parity (s : FState) (lits : List Int) (constant : Int) (check : Bool) : Except Err FState :=
   (checked s lits check).map (fun s => push s (.parity lits constant))
 
+/-- a list of literals some of whose entries were computed by `group(pattern)` (a scalar or a list): the checked
+builder methods refuse a list among the literals ("literals must be non-zero integers": ValueError) -/
+def lits (l : List (Sum Int (List Int))) : Except Err (List Int) :=
+  l.mapM (fun x => match x with | .inl v => .ok v | .inr _ => .error .valueError)
+
 def add_maj (kind : MajKind) (s : FState) (lits : List Int) (check : Bool) : Except Err FState :=
   (checked s lits check).map (fun s => push s (.maj kind lits))
 
